@@ -1066,12 +1066,12 @@ def c01_r8(ctx):
     ctx.need(lps, "node spawn loop")
     lp = max(lps, key=lambda l: len(l["body"]))
     elem_node = {e + (("field", 0),) for e in lp["elem"]}
-    tys = node.body["upvar_tys"]
-    hist_i = [i for i, t in enumerate(tys) if t["s"] == "history::RuleHistory"]
-    node_i = [i for i, t in enumerate(tys) if t["s"] == "sort::Node"]
-    ctx.need(len(hist_i) == 1 and len(node_i) == 1, "captured RuleHistory and Node")
+    slots = node.capture_slots()
+    hist_s = [sl for sl in slots if sl["ty"]["s"] == "history::RuleHistory"]
+    node_s = [sl for sl in slots if sl["ty"]["s"] == "sort::Node"]
+    ctx.need(len(hist_s) == 1 and len(node_s) <= 1, "one captured RuleHistory (and at most one Node)")
     ctx.inst("captured history", b.where(bb, idx))
-    ho = b.origins_of_operand(rv["ops"][hist_i[0]])
+    ho = b._op_origins(rv["ops"][hist_s[0]["i"]], tuple(hist_s[0]["steps"][1:]), frozenset())
     ok = ho and all(o[0][0] == "call" and o[0][3].endswith("read_rule_history") and o[1:] == (("variant", "Ok"), ("field", 0)) for o in ho)
     if ok:
         for o in ho:
@@ -1083,10 +1083,19 @@ def c01_r8(ctx):
     else:
         ctx.viol((b.id, "foreign-history"), "the history given to a rule's thread is not read_rule_history(rule_ticket) of the node being spawned", b.where(bb, idx))
     ctx.inst("captured node", b.where(bb, idx))
-    if b.origins_of_operand(rv["ops"][node_i[0]]) != elem_node:
+    if node_s and b._op_origins(rv["ops"][node_s[0]["i"]], tuple(node_s[0]["steps"][1:]), frozenset()) != elem_node:
         ctx.viol((b.id, "foreign-node"), "the node given to a rule's thread is not this iteration's node", b.where(bb, idx))
     else:
         ctx.ok()
+
+    def lifted(org):
+        """origins inside the closure (captured places) -> origins in build()"""
+        out = set()
+        for o in org:
+            if not (o[0] == ("param", 1) and len(o) >= 2 and o[1][0] == "field" and o[1][1] in caps):
+                return None
+            out |= b._op_origins(rv["ops"][caps.index(o[1][1])], tuple(o[2:]), frozenset())
+        return out
     # the ticket stored beside the handle
     sp = [cs for (p2, cs, cl) in R.spawns() if cl is node][0]
     pushes = [p for p in b.calls_to("std::vec::Vec::<T, A>::push") if p.bb in lp["body"] and "JoinHandle" in b.local_ty(p.args[1]["place"]["local"])["s"]]
@@ -1114,9 +1123,9 @@ def c01_r8(ctx):
     for (b2, i2, rv2, pl2) in node.constructs("work::RuleExt"):
         ctx.inst("RuleExt", node.where(b2, i2))
         ops = dict(zip(rv2["kind"]["fields"], rv2["ops"]))
-        if node.origins_of_operand(ops["command"]) != {(("param", 1), ("field", caps[node_i[0]]), ("field", "command"))}:
-            ctx.viol((node.id, "foreign-command"), "the command handed to the handler is not the captured node's command", node.where(b2, i2))
-        elif node.origins_of_operand(ops["rule_history"]) != {(("param", 1), ("field", caps[hist_i[0]]))}:
+        if lifted(node.origins_of_operand(ops["command"])) != {e + (("field", "command"),) for e in elem_node}:
+            ctx.viol((node.id, "foreign-command"), "the command handed to the handler is not the command of the node this thread was spawned for", node.where(b2, i2))
+        elif node.origins_of_operand(ops["rule_history"]) != {(("param", 1),) + tuple(hist_s[0]["steps"])}:
             ctx.viol((node.id, "foreign-history-in-closure"), "the history handed to the handler is not the captured one", node.where(b2, i2))
         else:
             ctx.ok()
